@@ -28,7 +28,7 @@ def _run(c, prop):
     c.cov['witness_behaviours'] = len(wit)
     c.log('witness behaviours: %d of %d' % (len(wit), len(WITNESSES)))
     behs = wit + behs
-    res = c.harness(binp, 'replay', {'behaviours': behs}, timeout=1500)
+    res = c.replay_retry(binp, 'replay', behs, wrap=lambda b: {'behaviours': b}, timeout=1500)
     c.absorb(res)
     c.cov['traces_validated_against_impl'] = res['completed']
     c.cov['evaluations'] = res['executed']
